@@ -62,6 +62,9 @@ pub struct Recorded {
     pub attempts: u64,
     pub prelude_end: usize,
     pub prelude_attempts: u64,
+    /// fault runs only: disagreements of the LIVE handle (if it stayed Active)
+    /// with the acknowledged history, checked before the process "dies"
+    pub live_problems: Vec<(String, String)>,
 }
 
 fn install_env() {
@@ -103,7 +106,9 @@ pub async fn record_with_prelude(prelude: &[Op], workload: &[Op], start_idx: Idx
         attempts: 0,
         prelude_end: 0,
         prelude_attempts: 0,
+        live_problems: Vec::new(),
     };
+    let mut live_fx: Option<Fixture> = None;
     match Fixture::open(store, start_idx).await {
         Ok(mut fx) => {
             rec.created_at = ctl.journal_len();
@@ -148,10 +153,23 @@ pub async fn record_with_prelude(prelude: &[Op], workload: &[Op], start_idx: Idx
                     idx_before,
                 });
             }
+            live_fx = Some(fx);
         }
         Err(e) => {
             rec.created_at = usize::MAX;
             rec.open_error = Some(format!("{e:?}"));
+        }
+    }
+    if let (Some(i), Some(fx)) = (fault_at, live_fx.as_ref())
+        && fx.coll.state() == anda_db::error::CollectionState::Active
+    {
+        // a failed call that leaves the handle usable must have left memory
+        // consistent with what was acknowledged (the failed call all-or-nothing)
+        ctl.reset_faults();
+        let exp = expectation_after_fault(&rec, rec.prelude_attempts + i);
+        let (ps, _) = check_state(fx, &exp).await;
+        for (sig, msg) in ps {
+            rec.live_problems.push((format!("live-after-failed-call|{sig}"), format!("handle still Active after a failed backend call, but {msg}")));
         }
     }
     rec.journal = ctl.journal();
